@@ -76,6 +76,45 @@ func copyFile(src, dst string) error {
 // (TLC could not be started, parse errors in the spec, timeout); a violated
 // property is reported in Result.Violated.
 func Run(r *core.Run, o Options) (*Result, error) {
+	res, err := runOnce(r, o)
+	if err == nil || res == nil || o.Workers == 1 {
+		return res, err
+	}
+	switch res.ExitCode {
+	case 0, 10, 11, 12, 13, 124, 137:
+		return res, err
+	}
+	// TLC ended with an internal error (not a property violation, not a timeout). With several workers this
+	// has been seen sporadically (same spec and config pass when repeated): repeat once single-threaded, which
+	// is deterministic; a genuine error of the spec fails again and is reported.
+	r.Logf("TLC %s/%s failed with %d workers (exit %d); repeating once with 1 worker. First error lines:\n%s", o.Module, o.Config, o.Workers, res.ExitCode, errorLines(res.Output, 12))
+	o2 := o
+	o2.Workers = 1
+	if o2.TimeoutSec > 0 {
+		o2.TimeoutSec *= 3
+	}
+	return runOnce(r, o2)
+}
+
+func errorLines(s string, n int) string {
+	var out []string
+	lines := strings.Split(s, "\n")
+	for i, l := range lines {
+		if strings.Contains(l, "Error") || strings.Contains(l, "Exception") || strings.Contains(l, "error:") {
+			end := i + 3
+			if end > len(lines) {
+				end = len(lines)
+			}
+			out = append(out, lines[i:end]...)
+			if len(out) >= n {
+				break
+			}
+		}
+	}
+	return strings.Join(out, "\n")
+}
+
+func runOnce(r *core.Run, o Options) (*Result, error) {
 	n := atomic.AddInt64(&counter, 1)
 	dir := filepath.Join(r.Scratch, fmt.Sprintf("tlc-%d", n))
 	if err := os.MkdirAll(dir, 0755); err != nil {
